@@ -19,6 +19,7 @@ EXPLANATION = (
   " (STATE-alias / STATE-global) no function of the anchored modules mutates a module- or class-level container, rebinds module / class state or mutates a mutable default argument, so a result never depends on earlier calls;"
   " (FIN-dropcount) for every rate counted in drop-frame mode, 9 x (labels dropped per minute) equals the label excess per ten minutes to within 1/20 frame;"
   " (FIN-dropframe) from_frames / to_frames agree with SMPTE ST 12-1 labels around every minute boundary of the first 22 minutes and the hour (30000/1001, 60000/1001) and are inverse there;"
+  ' (DEP-round) ClockTime.from_seconds derives hours, minutes, seconds and milliseconds from one rounded value; (EXA-offset) SmpteTimeCode.to_temporal_offset returns Fraction(frames, rate) exactly;'
 )
 RULE_TEXT = "EXA: one instance per truncation / time sink call site; FMT: one instance per printer branch x separator choice x sample vector"
 UNDECIDED = ["frames -> label -> frames identity", "label validity and drop-frame label skipping", "monotonicity of successive frame counts",
